@@ -32,9 +32,10 @@ ASSUMPTIONS = [
 ]
 
 ENCODINGS = ["utf-8", "utf-8-sig", "utf-16", "utf-32", "latin-1", "cp1252", "ascii"]
-BASE = list("ab,\"'\r\n\x00;|\t 1")
-EXTRA = {"utf-8": ["\xe9", "€", "\U0001F600", "﻿"], "utf-8-sig": ["\xe9", "€", "\U0001F600"], "utf-16": ["\xe9", "€", "\U0001F600"],
-         "utf-32": ["\xe9", "€", "\U0001F600"], "latin-1": ["\xe9", "\xff"], "cp1252": ["\xe9", "€"], "ascii": []}
+BASE = list("ab,\"'\r\n\x00;|\t 1") + ["\x0b", "\x0c", "\x1c", "\x1d", "\x1e"]  # incl. str.splitlines() breakers
+_U = ["\xe9", "€", "\U0001F600", "\x85", "\u2028", "\u2029"]
+EXTRA = {"utf-8": _U + ["\ufeff"], "utf-8-sig": _U, "utf-16": _U, "utf-32": _U, "latin-1": ["\xe9", "\xff", "\x85"], "cp1252": ["\xe9", "€"],
+         "ascii": []}
 KINDS = ["plain", "gz", "bz2", "mem"]
 
 
